@@ -36,7 +36,7 @@ def confirm(seed):
         if rc != 0:
             res["apply_output"] = out[-600:]
             return res
-        T = "/tmp/seed_eval_target"
+        T = os.environ.get("SEED_EVAL_TARGET", "/tmp/seed_eval_target")
         rc, out = sh("cargo test --offline 2>&1 | grep -E '^test result|error(\\[|:)' | head -5", cwd=wt, cargo_target=T)
         res["suite_with_patch"] = out.strip().splitlines()[0] if out.strip() else "no output"
         res["suite_passes"] = "67 passed; 0 failed" in out
